@@ -28,7 +28,7 @@ COQ_HEADER = 'From Scales Require Import Model.Base Model.Resurrector.'
 COQ_CASE_TYPE = 'list case'
 COQ_CHECK = '(forallb check_case)'
 COQ_EXPLAIN = '(map explain_case)'
-SHARD = 12
+SHARD = 20
 WORKERS = 8
 RULE = ('seeded outage schedules over 1-5 virtual minutes (harness/props/c09.py gen_case): Thrift and ThriftMux stacks, 1-3 '
         'endpoints, each with 0-3 outages (unreachable at first connect; going down by connection reset / EOF / silently with a '
@@ -49,13 +49,18 @@ ASSUMPTIONS = ['each ResurrectorSink is opened once, before any other use (wf_tr
                'honest_open: an Open of the underlying sink succeeds only if the endpoint was reachable when the attempt started and '
                'succeeds if it was reachable throughout the attempt (checked on every simulated attempt against the fake network)',
                'the clock adds with rounding error at most eps (binary64: < 2^-40 s below 2^13 s) and time.time() is never 0.0',
-               'recovery bound is max + eps + 2 * (duration of an Open); with instantaneous connects it is the configured maximum']
+               'recovery bound is max + eps + 2 * (duration of an Open); with instantaneous connects it is the configured maximum',
+               'C09_close_stops is about the resurrector (no retry, Open or fault handling after Close, full strength); the pool and the '
+               'serial transport below it are not part of the model: known finding connect-after-close/serial-transport-reopen (a request '
+               'in flight when the pool is closed makes the serial transport re-open its socket when it times out) is reported by the '
+               'monitor with its own signature, any other connect after close is an unlisted violation']
 MANIFEST = {
     'text': ('Theorems over every label sequence of the ResurrectorSink model (any faults, requests, retry outcomes, clock advances, '
              'Close, in any order): while down every request is answered FailedFastError in the same step and nothing is forwarded; '
              'the sleeps of an outage are w0, next w0, ... non-decreasing and <= max under H1/H2; if the endpoint is reachable from '
              'some instant on and the underlying Open is honest, a retry succeeds within max (+ clock rounding + Open durations); '
-             'after Close no retry, Open or fault handling is enabled.  The model is replayed inside Coq against every '
+             'after Close no retry, Open or fault handling is enabled (known finding: in the Thrift stack the serial transport of a '
+             'request in flight at close re-opens its socket once when the request times out).  The model is replayed inside Coq against every '
              'ResurrectorSink instance of full Thrift and ThriftMux client runs over generated outage schedules in virtual time.'),
     'note': ('Trusted: Coq kernel; simulation world, scripted peers, tracing proxies; gevent.  The balancer step (member used again at '
              'its next dispatch) is assumed from C03 and checked on the implementation by the monitor.  C09_Rpower_grows uses the '
@@ -112,6 +117,7 @@ def gen_case(r, idx=0, stack=None):
   period = max(period, horizon // 110)
   ops = []
   hot = []          # ticks around which extra calls are placed
+  slow_success = [] # ticks at which a retry's Open is predicted to be in progress (connect delay)
   for k in range(n_ep):
     ep = {'port': 9001 + k, 'init': 'up', 'reply_delay': r.choice([0, 0, 0, 1, 3]), 'connect_delay': r.choice([0, 0, 0, 0, 1, 3])}
     t = 0
@@ -144,9 +150,15 @@ def gen_case(r, idx=0, stack=None):
       if up < horizon:
         ops.append({'at': up, 'op': 'up', 'port': ep['port']})
         hot.append(up)
-        # the first retry after it is back
-        nxt = [a for a in hot if a >= up]
-        hot.append(up + int(ws[min(kfail + 1, len(ws) - 1)] * 64) + 1)
+        # the first predicted retry after it is back (the one that succeeds)
+        a = disc * 1.0
+        for w in ws:
+          a += w * 64
+          if a >= up:
+            break
+        hot.append(int(a))
+        if ep['connect_delay']:
+          slow_success.append(int(a) + 1)
       t = max(up, start) + 10
       if t >= horizon:
         break
@@ -170,7 +182,10 @@ def gen_case(r, idx=0, stack=None):
   for i, t in enumerate(call_ticks):
     ops.append({'at': t, 'op': 'call', 'id': 'c%d' % i})
   if r.random() < 0.25:
-    at = r.choice(hot) + r.choice([-1, 0, 0, 1]) if hot and r.random() < 0.6 else r.randrange(8, horizon)
+    if slow_success and r.random() < 0.5:
+      at = r.choice(slow_success)
+    else:
+      at = r.choice(hot) + r.choice([-1, 0, 0, 1]) if hot and r.random() < 0.6 else r.randrange(8, horizon)
     ops.append({'at': max(8, min(at, horizon - 1)), 'op': 'close'})
   ops.sort(key=lambda e: (e['at'], {'down': 0, 'up': 1, 'call': 2, 'close': 3}[e['op']]))
   cl = [e['at'] for e in ops if e['op'] == 'close']
@@ -310,9 +325,16 @@ def _episodes(it, log):
     if not ok and not it.stale(sid, i):
       ev.append((i, 'F', t))
   for cid, i in it.closed.items():
-    if cid in it.killed and it.killed[cid] < i and not it.stale(it.conn_sid.get(cid), i):
+    sid = it.conn_sid.get(cid)
+    if cid in it.killed and it.killed[cid] < i and not it.stale(sid, i):
       t = log[i][0]
-      if not any(j > i and tt == t and ok and sid == it.conn_sid.get(cid) for (j, tt, ok, sid) in it.connects):
+      end_i = i
+      while end_i + 1 < len(log) and log[end_i + 1][0] == t:
+        end_i += 1
+      # ... and by the end of that instant holds no other connection for this sink (dropping one pooled connection
+      # after use while another one stays is ordinary pool shrinking, whatever the peer did to it unnoticed)
+      held = [c for c, j in it.estab.items() if j <= end_i and it.conn_sid.get(c) == sid and not (c in it.closed and it.closed[c] <= end_i)]
+      if not held and not any(j > i and tt == t and ok and sd == sid for (j, tt, ok, sd) in it.connects):
         ev.append((i, 'F', t))
   for (i, t, ok, sid, gi) in it.opens:
     if sid >= 2:
@@ -602,10 +624,17 @@ def _out_term(o):
 def _step_term(s):
   l = s['l']
   if l == 'LTick':
-    l = '(LTick %s)' % C.zlit(s['t'])
-  elif l.startswith('LOpenDone'):
+    q, r = divmod(s['t'], TICK_UNITS)
+    return '(sK %s)' % C.zlit(q) if r == 0 else '(sT %s)' % C.zlit(s['t'])
+  if l == 'LReq' and s['st'] is None and s['conn'] is None and len(s['outs']) == 1:
+    o = s['outs'][0]
+    if o[0] == 'OFailFast':
+      return 'sX'
+    if o[0] == 'OForward':
+      return '(sF %s)' % C.zlit(o[1])
+  if l.startswith('LOpenDone'):
     l = '(%s)' % l
-  return '{| o_label := %s; o_outs := %s; o_state := %s; o_conn := %s |}' % (
+  return '(sG %s %s %s %s)' % (
       l, C.lst([_out_term(o) for o in s['outs']]),
       'None' if s['st'] is None else '(Some %s)' % C.zlit(s['st']),
       'None' if s['conn'] is None else '(Some %s)' % C.blit(s['conn']))
